@@ -269,6 +269,38 @@ def loop_slips(repo: Repo, prefixes: Iterable[str]):
                                      f'{sorted(reb & used)}, which the loop '
                                      f'body reads: the update was meant to '
                                      f'happen in every iteration'))
+                # (c) a flag initialised before the loop and read after
+                # it is reset to its initial value by every iteration that
+                # does not set it (`flag = x if cond else None` at the top
+                # level of the body): only the last element counts
+                for b in l.body:
+                    if not (isinstance(b, ast.Assign) and len(b.targets) == 1
+                            and isinstance(b.targets[0], ast.Name)
+                            and isinstance(b.value, ast.IfExp)
+                            and isinstance(b.value.orelse, ast.Constant)):
+                        continue
+                    v = b.targets[0].id
+                    k = b.value.orelse.value
+                    body = getattr(f.node, 'body', [])
+                    pre = [a for a in walk_no_nested(f.node)
+                           if isinstance(a, ast.Assign) and len(
+                               a.targets) == 1 and norm(a.targets[0]) == v
+                           and isinstance(a.value, ast.Constant)
+                           and a.value.value == k and a.value.value in (
+                               None, False) and a.lineno < l.lineno]
+                    post = [x for x in walk_no_nested(f.node)
+                            if isinstance(x, ast.Name) and x.id == v
+                            and isinstance(x.ctx, ast.Load)
+                            and x.lineno > (l.end_lineno or l.lineno)]
+                    inner = [x for bb in l.body for x in ast.walk(bb)
+                             if isinstance(x, ast.Name) and x.id == v
+                             and isinstance(x.ctx, ast.Load)]
+                    if pre and post and not inner:
+                        hits.append((f, l, f'`{norm(b)[:50]}` resets the '
+                                     f'flag `{v}` (initialised to {k!r} '
+                                     f'before the loop, read after it) in '
+                                     f'every iteration that does not set '
+                                     f'it: only the last element counts'))
                 if isinstance(l, ast.For) and isinstance(
                         l.iter, (ast.Name, ast.Attribute)) \
                         and f.qualname not in RESIZE_OK:
@@ -394,7 +426,8 @@ SCOPE = {
             'quoted text can break out of its quotes'),
     'C19': (['edb.server.config', 'edb.ir.statypes'],
             'configuration is stored or rendered wrongly'),
-    'C20': (['edb.common.topological', 'edb.schema.ordering'],
+    'C20': (['edb.common.topological', 'edb.schema.ordering',
+             'edb.common.ordered', 'edb.schema.delta'],
             'the ordering violates a dependency'),
 }
 
